@@ -19,7 +19,25 @@ import (
 
 type reporter func(prop, sig, detail string)
 
-const sigMissingD = `C04/address: addressable event without d tag and the d="" version of the same address are kept apart (missing d is not read as empty d)`
+// reading selects how the address of an addressable event WITHOUT a d tag is understood. The
+// property text ("by pubkey and d value") does not settle whether such an event shares the address
+// of the d="" event of the same kind and author or has an address of its own; a correct store may
+// do either. Every transition is therefore judged under both readings and accepted when one of
+// them allows it (three-valued: the difference is counted as unclaimed). Under both readings the
+// address belongs to its author, and two d-less events of one author and kind are ONE address.
+type reading int
+
+const (
+	readSameAsEmptyD reading = iota
+	readOwnAddress
+)
+
+func (e *evInfo) addrUnder(r reading) string {
+	if r == readOwnAddress && e.class == clsAddrNoD {
+		return e.addr + "\x00no-d-tag"
+	}
+	return e.addr
+}
 
 func bit(i int) uint64 { return 1 << uint(i) }
 
@@ -53,7 +71,7 @@ func isolationSig(a, b evClass) string {
 }
 
 // checkRetained evaluates the state invariants of C04 on a listing.
-func checkRetained(capacity int, A []int, rep reporter, ctx func() string) {
+func checkRetained(r reading, capacity int, A []int, rep reporter, ctx func() string) {
 	if len(A) > capacity {
 		rep("C04", "C04/capacity: more events retained than the capacity", ctx())
 	}
@@ -69,16 +87,12 @@ func checkRetained(capacity int, A []int, rep reporter, ctx func() string) {
 		if xi.class == clsEphemeral {
 			rep("C04", "C04/ephemeral event served from storage", ctx())
 		}
-		if xi.addr != "" {
-			if y, ok := addrs[xi.addr]; ok {
+		if xa := xi.addrUnder(r); xa != "" {
+			if y, ok := addrs[xa]; ok {
 				yi := sigma[y]
-				if (xi.class == clsAddrNoD && yi.class == clsAddrEmptyD) || (xi.class == clsAddrEmptyD && yi.class == clsAddrNoD) {
-					rep("C04", sigMissingD, ctx())
-				} else {
-					rep("C04", fmt.Sprintf("C04/address: two versions of one address retained (%s, %s)", minClass(xi.class, yi.class), maxClass(xi.class, yi.class)), ctx())
-				}
+				rep("C04", fmt.Sprintf("C04/address: two versions of one address retained (%s, %s)", minClass(xi.class, yi.class), maxClass(xi.class, yi.class)), ctx())
 			} else {
-				addrs[xi.addr] = x
+				addrs[xa] = x
 			}
 		}
 	}
@@ -105,14 +119,14 @@ const (
 	refMustAdr = 3 // claimed, by address (only to word the signature)
 )
 
-func reference(k, x *evInfo) int {
+func reference(r reading, k, x *evInfo) int {
 	if k.class != clsDeletion || k.author != x.author || k.idx == x.idx {
 		return refNone
 	}
 	if inStr(k.eRefs, x.ev.ID) {
 		return refMust
 	}
-	if x.class.addressable() && inStr(k.aRefs, x.addr) {
+	if x.class.addressable() && inStr(k.aRefs, x.addrUnder(r)) {
 		if x.t <= k.t {
 			return refMustAdr
 		}
@@ -135,8 +149,82 @@ func (v *stepVerdict) zone(format string, a ...any) {
 	v.zones = append(v.zones, fmt.Sprintf(format, a...))
 }
 
+type bufferedViolation struct{ prop, sig, detail string }
+
+// readingsDiffer: the two readings can only disagree when a d-less addressable event and the
+// d="" event of the same kind and author both take part in the transition.
+func readingsDiffer(B []int, e int, A []int) bool {
+	noD, emptyD := map[string]bool{}, map[string]bool{}
+	note := func(x int) {
+		switch sigma[x].class {
+		case clsAddrNoD:
+			noD[sigma[x].addr] = true
+		case clsAddrEmptyD:
+			emptyD[sigma[x].addr] = true
+		}
+	}
+	for _, x := range B {
+		note(x)
+	}
+	for _, x := range A {
+		note(x)
+	}
+	note(e)
+	for a := range noD {
+		if emptyD[a] {
+			return true
+		}
+	}
+	return false
+}
+
 // stepOracle judges one transition. hist is the history BEFORE e (used only to word diagnoses).
+// The transition is allowed when the relation holds under at least one reading of the d-less
+// address; when both readings reject it, the violations common to both are reported (all of the
+// first reading's if there is none in common).
 func stepOracle(capacity int, hist []uint8, B []int, e int, flag bool, A []int, rep reporter) stepVerdict {
+	if !readingsDiffer(B, e, A) {
+		return stepOracleUnder(readSameAsEmptyD, capacity, hist, B, e, flag, A, rep)
+	}
+	var buf [2][]bufferedViolation
+	var vs [2]stepVerdict
+	for r := readSameAsEmptyD; r <= readOwnAddress; r++ {
+		r := r
+		vs[r] = stepOracleUnder(r, capacity, hist, B, e, flag, A, func(prop, sig, detail string) {
+			buf[r] = append(buf[r], bufferedViolation{prop, sig, detail})
+		})
+	}
+	switch {
+	case len(buf[0]) == 0 && len(buf[1]) == 0:
+		return vs[0]
+	case len(buf[0]) == 0:
+		v := vs[0]
+		v.zone(`address of a d-less addressable event: transition legal only if it shares the address of d=""`)
+		return v
+	case len(buf[1]) == 0:
+		v := vs[1]
+		v.zone(`address of a d-less addressable event: transition legal only if it has an address of its own`)
+		return v
+	}
+	common := false
+	for _, a := range buf[0] {
+		for _, b := range buf[1] {
+			if a.prop == b.prop && a.sig == b.sig {
+				common = true
+				rep(a.prop, a.sig, a.detail)
+				break
+			}
+		}
+	}
+	if !common {
+		for _, a := range buf[0] {
+			rep(a.prop, a.sig, a.detail)
+		}
+	}
+	return vs[0]
+}
+
+func stepOracleUnder(r reading, capacity int, hist []uint8, B []int, e int, flag bool, A []int, rep reporter) stepVerdict {
 	var v stepVerdict
 	ei := sigma[e]
 	Bm, Am := maskOf(B), maskOf(A)
@@ -145,7 +233,7 @@ func stepOracle(capacity int, hist []uint8, B []int, e int, flag bool, A []int, 
 			capacity, labelsOf(hist), ei, flag, labelsOfIdx(B), labelsOfIdx(A))
 	}
 
-	checkRetained(capacity, A, rep, ctx)
+	checkRetained(r, capacity, A, rep, ctx)
 
 	if g := Am &^ (Bm | bit(e)); g != 0 {
 		rep("C04", "C04/gain: an event that was not offered appeared in the store", ctx())
@@ -210,10 +298,10 @@ func stepOracle(capacity int, hist []uint8, B []int, e int, flag bool, A []int, 
 	dup := Bm&bit(e) != 0
 	var cur uint64
 	older, tie := false, false
-	if ei.addr != "" {
+	if ea := ei.addrUnder(r); ea != "" {
 		for _, x := range B {
 			xi := sigma[x]
-			if x != e && xi.addr == ei.addr {
+			if x != e && xi.addrUnder(r) == ea {
 				cur |= bit(x)
 				if xi.t > ei.t {
 					older = true
@@ -226,7 +314,7 @@ func stepOracle(capacity int, hist []uint8, B []int, e int, flag bool, A []int, 
 	supID, supAddr, supMay := false, false, false
 	supMayWhy := ""
 	for _, k := range B {
-		switch reference(sigma[k], ei) {
+		switch reference(r, sigma[k], ei) {
 		case refMust:
 			supID = true
 		case refMustAdr:
@@ -261,7 +349,7 @@ func stepOracle(capacity int, hist []uint8, B []int, e int, flag bool, A []int, 
 		// diagnosis from the history: was it referenced by a request of its author that has left?
 		stale := false
 		for _, h := range hist {
-			if r := reference(sigma[h], ei); (r == refMust || r == refMustAdr) && Bm&bit(int(h)) == 0 {
+			if rf := reference(r, sigma[h], ei); (rf == refMust || rf == refMustAdr) && Bm&bit(int(h)) == 0 {
 				stale = true
 			}
 		}
@@ -304,7 +392,7 @@ func stepOracle(capacity int, hist []uint8, B []int, e int, flag bool, A []int, 
 			if x == e {
 				continue
 			}
-			switch reference(ei, sigma[x]) {
+			switch reference(r, ei, sigma[x]) {
 			case refMust:
 				mustRef |= bit(x)
 				if Am&bit(x) != 0 {
@@ -325,15 +413,7 @@ func stepOracle(capacity int, hist []uint8, B []int, e int, flag bool, A []int, 
 			}
 		}
 	}
-	for _, x := range idxOfMask(replaced & Am) {
-		xi := sigma[x]
-		if (xi.class == clsAddrNoD && ei.class == clsAddrEmptyD) || (xi.class == clsAddrEmptyD && ei.class == clsAddrNoD) {
-			// the store keeps "no d tag" and d="" apart: one root cause, one signature (the same one
-			// checkRetained uses when both are listed); the rest of this transition is judged no further
-			rep("C04", sigMissingD, ctx())
-			v.outcome = fmt.Sprintf("%s flag=true, d-less/empty-d counterpart stayed", ei.class)
-			return v
-		}
+	if replaced&Am != 0 {
 		rep("C04", fmt.Sprintf("C04/replace: accepted a version of an address but the previously retained version stayed (%s)", ei.class), ctx())
 	}
 
